@@ -16,7 +16,8 @@ SHRINK_BUDGET = 200
 RULE = ("write histories on a fresh temp directory: creation time (aligned / unaligned / just before midnight UTC), size limit from "
         "{1..100000} and file-count limit from {1..6} so that 0..12 size rolls, day rolls and removals happen; per-second batches of 1-4 items "
         "(second steps 0,0,1,1,2,5; occasionally backwards, ts 0, empty batch), resource names from a small pool (ASCII, UTF-8, one with '|'), "
-        "counters boundary-heavy (0, 1, 2^32-1, 2^64-1, class +-2^31); queries FindByTimeAndResource / FindFromTimeWithMaxLines interleaved "
+        "counters boundary-heavy (0, 1, 2^32-1, 2^64-1, class +-2^31); restarts of the writer on the same directory (log.reopen) at a later clock "
+        "(same second .. past midnight) with other, mostly smaller, limits, followed by writes with log.files after each; queries FindByTimeAndResource / FindFromTimeWithMaxLines interleaved "
         "with the writes and at the end, on two long-lived searchers (position cache) and on fresh ones, begin/end on written seconds +-1 and "
         "unaligned; then a crash phase: quick = every cut offset inside the last 3 lines of the last data file and the last 3 entries of its "
         "index, thorough = every byte offset of both files, each followed by queries; fixed slices inside each known-finding region. "
@@ -55,6 +56,13 @@ class Sim:
     def roll(self):
         self.lines, self.nidx = [], 0
         self.rolls += 1
+
+    def reopen(self, now, max_size):
+        self.roll()
+        self.max_size = max_size
+        self.latest = now // 1000
+        if self.latest not in self.secs:
+            self.secs.append(self.latest)
 
     def write(self, ts, items):
         if not items or ts == 0:
@@ -97,7 +105,7 @@ def rand_query(rng, sim, sid, now_sec):
 
 
 def gen_case(rng, cid, tier, forced=None):
-    kind = forced or rng.choice(["plain", "plain", "cut", "cut", "cut", "first", "cache", "orphan", "torn"])
+    kind = forced or rng.choice(["plain", "plain", "cut", "cut", "cut", "first", "cache", "orphan", "torn", "reopen", "reopen"])
     r = rng.random()
     if r < 0.6:
         t0 = B0 + rng.randint(0, 50000) * 1000
@@ -111,6 +119,8 @@ def gen_case(rng, cid, tier, forced=None):
         max_size, max_files = rng.choice([60, 110, 200]), rng.choice([1, 2, 3])
     if kind == "torn":
         max_size = rng.choice([300, 1000, 100000])
+    if kind == "reopen":
+        max_size, max_files = rng.choice([1, 60, 110, 200]), rng.choice([3, 4, 6, 6])
     ops = [f"clock {t0}", f"log.new {max_size} {max_files}"]
     sim = Sim(t0, max_size, max_files)
     ts = t0
@@ -120,7 +130,30 @@ def gen_case(rng, cid, tier, forced=None):
         items = [rand_item(rng) for _ in range(rng.randint(1, 3))]
         ops.append(f"log.write {ts} {len(items)} " + " ".join(item_tok(i) for i in items))
         sim.write(ts, items)
-    for _ in range(rng.randint(3, 14)):
+    nwrites = rng.randint(3, 14) if kind != "reopen" else rng.randint(8, 16)
+    reopen_at = set()
+    if kind == "reopen":
+        reopen_at = set(rng.sample(range(3, nwrites - 1), rng.choice([1, 1, 2])))
+    elif rng.random() < 0.12:
+        reopen_at = {rng.randrange(nwrites)}
+    watch = 0                       # log.files after each of the next writes
+    nreopen = 0
+    for wi in range(nwrites):
+        if wi in reopen_at:
+            # restart of the writer on the same directory: later clock (sometimes past midnight), other limits
+            base = max(ts, sim.latest * 1000)
+            delta = rng.choice([0, 1, 999, 1000, 3000, 60000, 86400000, (86400000 - base % 86400000) + rng.choice([0, 1000])])
+            now = base + delta
+            if kind == "reopen":
+                new_files = rng.choice([1, 2, 2, 3])
+                new_size = rng.choice([1, 60, 110, 300, 100000])
+            else:
+                new_files, new_size = rng.choice([1, 2, 3, 6]), rng.choice([1, 60, 110, 300, 1000, 100000])
+            ops += [f"clock {now}", f"log.reopen {new_size} {new_files}", "log.files"]
+            sim.reopen(now, new_size)
+            ts = now
+            watch = rng.randint(2, 4)
+            nreopen += 1
         step = rng.choice([0, 0, 1, 1, 1, 1, 2, 5]) if kind != "orphan" else rng.choice([0, 0, 0, 1, 1])
         ts += step * 1000 + (rng.choice([0, 0, 0, 1, 250]) if step else 0)
         x = rng.random()
@@ -134,6 +167,9 @@ def gen_case(rng, cid, tier, forced=None):
         items = [rand_item(rng) for _ in range(rng.randint(1, 4))]
         ops.append(f"log.write {ts} {len(items)} " + " ".join(item_tok(i) for i in items))
         sim.write(ts, items)
+        if watch:
+            ops.append("log.files")
+            watch -= 1
         if rng.random() < 0.25:
             ops.append(rand_query(rng, sim, rng.choice(["s1", "s2", f"f{nq}"]), ts // 1000))
             nq += 1
@@ -200,14 +236,14 @@ def gen_case(rng, cid, tier, forced=None):
         if rng.random() < 0.1:
             ops.append(f"log.write {ts + 1000} 1 a:1:0:0:0:0:0:0:0")      # writer is dead: both sides say bad-op
     ops.append("log.end")
-    return Case(cid, ops, tags=(kind, f"size={max_size}", f"files={max_files}", f"rolls={sim.rolls}", f"cuts={ncut}"))
+    return Case(cid, ops, tags=(kind, f"size={max_size}", f"files={max_files}", f"rolls={sim.rolls}", f"cuts={ncut}", f"reopens={nreopen}"))
 
 
 def gen(ctx, n):
-    kinds = ["first", "cache", "orphan", "torn"]
+    kinds = ["first", "cache", "orphan", "torn", "reopen"]
     out = []
     for i in range(n):
-        forced = kinds[i % 4] if i % 10 < 4 and i // 10 % 2 == 0 else None
+        forced = kinds[i % 5] if i % 10 < 5 and i // 10 % 2 == 0 else None
         out.append(gen_case(ctx.rng, f"g{ctx.seed}-{ctx.cov.get('traces_validated_against_impl', 0)}-{i}", ctx.tier, forced))
     return out
 
